@@ -6,6 +6,8 @@
     Config    assigned from the call's arguments on every acquire
     State     must be re-initialised on reuse
     Scratch   contents never read before written within a call (length may persist)
+    ConstZero allocated once (zeros), then only read / only rewritten where it is re-read
+              within the same macroblock; no function assigns, clears or fills it
     External  reference to caller data that must not survive release *)
 From Coq Require Import String List.
 From Webp Require Import Conc.PoolModel.
@@ -30,7 +32,7 @@ Definition class_VP8Encoder : list (string * fclass) := [
   ("yuvIn", Scratch);          (* per-MB work buffer, filled by Import before use *)
   ("yuvOut", Scratch);         (* reconstruction buffer; read only after PredCached/reconstruct wrote it (mbInfo.PredCached is reset) *)
   ("yuvOut2", Scratch);
-  ("yuvP", Scratch);           (* prediction buffer, borders filled by FillPredContext per MB *)
+  ("yuvP", ConstZero);         (* prediction buffer of the Method-2 I4 search (tryI4Modes -> PickBestI4Mode): the callee predicts 4x4 blocks inside it and reads, as prediction context, yuvP's own top row, left column and columns 17..20, which NO code ever writes (FillPredContext fills yuvOut, not yuvP) - they hold the allocator's zeros for ever; the interior cells are written by PredLuma4Direct before the same macroblock reads them. Found by the poisoning probe (garbage there changes the output); history-independent because the only accesses in the package are the allocation and that one call (regenerated list lossy_VP8Encoder_yuvP_accesses) *)
   ("mbInfo", State);           (* documented past leak (NzDC only set on the I16 branch): whole slab cleared *)
   ("dqm", State);              (* documented past leak (TLambdaSD only on SNS path): every segment cleared *)
   ("segmentHdr", State);
@@ -71,7 +73,7 @@ Definition class_VP8Encoder : list (string * fclass) := [
   ("tmpACLevels", Scratch);
   ("tmpRecon", Scratch);
   ("tmpUVLevels", Scratch);
-  ("tmpBestDQ", Scratch);      (* written when the first candidate mode beats the initial +inf score, before tryI4Modes reads it *)
+  ("tmpBestDQ", Scratch);      (* written when the first candidate mode (BDCPred, never skipped) beats the initial score ^uint64(0), before tryI4ModesRD reads it; decided by the poisoning probe: survives *)
   ("tmpBestQ", Scratch);       (* same *)
   ("tmpBestNz", State);        (* the code resets it explicitly (same read-after-conditional-write shape) *)
   ("tmpAnSrc", Scratch);       (* analysis temporaries *)
@@ -102,6 +104,11 @@ Definition class_VP8Encoder : list (string * fclass) := [
   ("serialPlanarA", Scratch);
   ("serialTmpRGB", Scratch)
 ].
+
+(** the accesses to the ConstZero field VP8Encoder.yuvP the model accounts for: the
+    allocation, and being handed to PickBestI4Mode as its prediction buffer *)
+Definition modelled_yuvP_accesses : list (string * string) :=
+  [("allocateBuffers", "set"); ("tryI4Modes", "arg:PickBestI4Mode#2")].
 
 (** fields of VP8Encoder whose value is a function of the gate fields and that only
     allocateBuffers assigns (so an object that passes the gate carries the right value) *)
@@ -148,7 +155,7 @@ Definition class_lossy_Decoder : list (string * fclass) := [
   ("skipP", State);            (* only assigned when useSkipProba *)
   ("dqm", State);              (* ParseQuant writes all four matrices *)
   ("filterType", State);
-  ("fstrengths", Scratch);     (* precomputeFilterStrengths leaves FILevel/HevThresh stale when level = 0, but FLimit = 0 then stops doFilter before reading them; not read when filterType = 0 *)
+  ("fstrengths", Scratch);     (* precomputeFilterStrengths leaves FILevel/HevThresh stale when level = 0, but FLimit = 0 then stops doFilter before reading them; not read when filterType = 0. Decided by the poisoning probe on files with level-0 segments: survives (and the mutant without the FLimit = 0 write is caught) *)
   ("intraT", State);           (* initFrame: re-sliced from the cleared slab, filled with BDCPred *)
   ("intraL", State);           (* left intra modes: read by the first parseIntraModeRow of a frame, written back by initScanline only at the END of each row; reset in acquireDecoder since fix fa3b99c (past leak after a failed decode) *)
   ("yuvT", State);             (* initFrame: clear / make *)
